@@ -2,7 +2,7 @@
    Statements only; proofs in Proofs/PostDisplaced.v.  Model: Model/Post.v. *)
 Require Import BB.Base.Str BB.Base.Xml BB.Model.Types BB.Model.Post.
 Require Import Permutation.
-Require Import BB.Proofs.PostDisplaced BB.Proofs.PostConserve.
+Require Import BB.Proofs.PostDisplaced BB.Proofs.PostConserve BB.Proofs.PostAttr.
 
 (* for every XML tree (not only parser output): if footnote resolution returns, no internal
    placeholder element is left anywhere in the result *)
@@ -25,6 +25,14 @@ Theorem C14_no_content_vanishes : forall x y,
     /\ Forall (fun s => fst (fst s) = DISPLACED) used /\ Forall (fun s => s = ph_sig) phs.
 Proof. exact displaced_conserves. Qed.
 Print Assumptions C14_no_content_vanishes.
+
+(* ... and no internal placeholder attribute either: every element that carries a displaced attribute is one of the
+   references collected at the start, each of them is reached (the fuel suffices for every traversal) and loses the
+   attribute, and nothing ever gains one.  For every tree of the builder's shape. *)
+Theorem C14_no_displaced_attribute_survives : forall x y,
+  wfDx x = true -> resolve_displaced_content x = OkR y -> no_dattr_x y = true.
+Proof. exact no_displaced_attribute_survives. Qed.
+Print Assumptions C14_no_displaced_attribute_survives.
 
 (* non-vacuity: a reference with a matching block, a reference without one, and a surplus block *)
 Definition ex14 : xml :=
